@@ -20,6 +20,7 @@ Inductive step_kind := KPut | KDelete | KEvict | KRestart | KWriteBack.
 
 Record step_obs := {
   so_kind : step_kind;
+  so_slots : N;             (* for a put: number of 10 s slots the upload spans *)
   so_err_with : bool;       (* the step returned an error / panicked on the storage with maintenance *)
   so_err_plain : bool;
   so_answers : list (option get_obs * option get_obs)   (* per query: (with, plain) *)
@@ -34,44 +35,66 @@ Record case := {
 Definition den_nz (t : tnode) := pnz (pnorm (t_den t)).
 Definition tots_nz (t : tnode) := pnz (pnorm (t_tots t)).
 
-Definition same_answer (a b : option get_obs) : option string :=
+Inductive diff := DNone | DTotalsDown (what : string) | DOther (what : string).
+
+(* totals of b never below the totals of a, stack by stack *)
+Definition tots_le (a b : tnode) : bool :=
+  forallb (fun pv => N.leb (snd pv) (pget (fst pv) (pnorm (t_tots b)))) (pnorm (t_tots a)).
+
+Definition same_answer (a b : option get_obs) : diff :=
   match a, b with
-  | None, None => None
+  | None, None => DNone
   | Some x, Some y =>
-      if negb (pm_eqb (den_nz (g_tree x)) (den_nz (g_tree y))) then Some "profile (self values per stack) differs from the run without evictions/restarts"
-      else if negb (pm_eqb (tots_nz (g_tree x)) (tots_nz (g_tree y))) then Some "profile (totals per stack) differs from the run without evictions/restarts"
+      if negb (pm_eqb (den_nz (g_tree x)) (den_nz (g_tree y))) then DOther "profile (self values per stack) differs from the run without evictions/restarts"
       else if negb (Z.eqb (g_tl_start x) (g_tl_start y) && Z.eqb (g_tl_delta x) (g_tl_delta y) && list_eqb N.eqb (g_tl_samples x) (g_tl_samples y))
-           then Some "timeline differs from the run without evictions/restarts"
+           then DOther "timeline differs from the run without evictions/restarts"
       else if negb (beqb (g_spy x) (g_spy y) && N.eqb (g_rate x) (g_rate y) && beqb (g_units x) (g_units y))
-           then Some "metadata differs from the run without evictions/restarts"
-      else None
-  | Some _, None => Some "query answers with data although the run without evictions/restarts has none"
-  | None, Some _ => Some "query returns nothing although the run without evictions/restarts has data"
+           then DOther "metadata differs from the run without evictions/restarts"
+      else if negb (pm_eqb (tots_nz (g_tree x)) (tots_nz (g_tree y))) then
+             (if tots_le (g_tree x) (g_tree y)
+              then DTotalsDown "profile totals are smaller than in the run without evictions/restarts (self values agree)"
+              else DOther "profile (totals per stack) differs from the run without evictions/restarts")
+      else DNone
+  | Some _, None => DOther "query answers with data although the run without evictions/restarts has none"
+  | None, Some _ => DOther "query returns nothing although the run without evictions/restarts has data"
   end.
 
-Fixpoint first_diff (l : list (option get_obs * option get_obs)) : option string :=
+(* worst difference of a step: DOther > DTotalsDown > DNone *)
+Fixpoint first_diff (l : list (option get_obs * option get_obs)) : diff :=
   match l with
-  | [] => None
-  | (a, b) :: l' => match same_answer a b with Some w => Some w | None => first_diff l' end
+  | [] => DNone
+  | (a, b) :: l' =>
+      match same_answer a b with
+      | DOther w => DOther w
+      | DTotalsDown w => match first_diff l' with DOther w' => DOther w' | _ => DTotalsDown w end
+      | DNone => first_diff l'
+      end
   end.
 
 Definition is_maint (k : step_kind) : bool := match k with KEvict | KRestart => true | _ => false end.
 
 (* signature writeback_before_evict at storage level: a write-back ran, and afterwards an eviction or a Close
-   (objects marked persisted by the write-back are dropped there without being saved) *)
-Fixpoint walk (wb_seen sig : bool) (l : list step_obs) : list verdict :=
+   (objects marked persisted by the write-back are dropped there without being saved).
+   signature scaled_totals_reloaded: an upload spanning more than one slot was stored (its per-bucket trees are
+   floor-scaled copies whose totals exceed self + children), an eviction or restart followed, and the answers
+   agree on every self value and differ only by smaller totals. *)
+Fixpoint walk (wb_seen sig scaled reloaded : bool) (l : list step_obs) : list verdict :=
   match l with
   | [] => []
   | s :: l' =>
       let wb' := wb_seen || match so_kind s with KWriteBack => true | _ => false end in
       let sig' := sig || (wb_seen && is_maint (so_kind s)) in
+      let scaled' := scaled || match so_kind s with KPut => N.ltb 1 (so_slots s) | _ => false end in
+      let reloaded' := reloaded || (scaled && is_maint (so_kind s)) in
       let v1 := if Bool.eqb (so_err_with s) (so_err_plain s) then Ok
                 else if sig' then Known "writeback-drop" else SpecFails "a step fails on one of the two runs only" in
       let v2 := match first_diff (so_answers s) with
-                | None => Ok
-                | Some w => if sig' then Known "writeback-drop" else SpecFails w
+                | DNone => Ok
+                | DOther w => if sig' then Known "writeback-drop" else SpecFails w
+                | DTotalsDown w => if sig' then Known "writeback-drop"
+                                   else if reloaded' then Known "scaled-totals-reloaded" else SpecFails w
                 end in
-      v1 :: v2 :: walk wb' sig' l'
+      v1 :: v2 :: walk wb' sig' scaled' reloaded' l'
   end.
 
 (* ---- dimension codec: model vs implementation ---- *)
@@ -86,7 +109,7 @@ Fixpoint first_model (l : list verdict) : option verdict :=
   match l with [] => None | ModelDiffers w :: _ => Some (ModelDiffers w) | _ :: l' => first_model l' end.
 
 Definition check_case (c : case) : verdict :=
-  let vs := app (walk false false (c_steps c)) (flat_map check_dim (c_dims c)) in
+  let vs := app (walk false false false false (c_steps c)) (flat_map check_dim (c_dims c)) in
   match first_spec vs with
   | Some v => v
   | None => match first_model vs with
